@@ -8,7 +8,7 @@ use libfuzzer_sys::fuzz_target;
 // mode 0: the rest is the raw request; mode k>0: a header with a *correct* length and the
 // opcode number k is put in front of the rest, so that the fuzzer reaches the handlers at once.
 fuzz_target!(|data: &[u8]| {
-    fbv_fuzz::engine::install_panic_hook();
+    fbv_fuzz::hook("C01");
     let mut b = Bytes::new(data);
     let cap = match b.u8() {
         x if x < 160 => Cap::Exact(x as u32),
